@@ -215,7 +215,7 @@ SECTIONS = ['units', 'diearea', 'rows', 'tracks', 'vias', 'comps', 'pins', 'spne
 
 
 def item_menu(special, k):
-    coords = [(10 * (k + 1), None), (None, 20 * (k + 1)), (30 + k, 40 + k), (None, None)]
+    coords = [(10 * (k + 1), None), (None, 20 * (k + 1)), (30 + k, 40 + k), (None, None), (0, None), (None, 0)] + ([(0, 0)] if k % 2 == 0 else [])
     items = [('p', x, y) for x, y in coords]
     items.append(('v', 'via1', None))
     if special:
